@@ -180,6 +180,32 @@ def element_level_oracle(run):
                     run.fail('count-changed', 'a value assigned through a datatype object changed the number of '
                              'fields/components/subcomponents/repetitions', version=v, ec=ec, input=s, output=out,
                              counts=cnt)
+                # the same through a datatype object assigned INSIDE a message that carries its own delimiters
+                from hl7apy.core import Message
+                if v >= '2.3.1' and k:
+                    try:
+                        m = Message('ADT_A01', version=v, encoding_chars=d)
+                        m.msh.msh_7 = '20200101'
+                        base_m = m.to_er7()
+                        m.msh.msh_10 = ST(s)
+                        out_m = m.to_er7()
+                        m2 = Message('ADT_A01', version=v, encoding_chars=d)
+                        m2.msh.msh_7 = '20200101'
+                        m2.msh.msh_10 = ST('x')
+                        ref_m = m2.to_er7()
+                        cm = tuple(out_m.count(ch) for ch in (f, c, sb, r))
+                        c0 = tuple(ref_m.count(ch) for ch in (f, c, sb, r))
+                        if cm != c0:
+                            run.fail('count-changed', 'a value assigned through a datatype object inside a message with '
+                                     'its own delimiters changed the number of fields/components/subcomponents/'
+                                     'repetitions', version=v, ec=ec, input=s, output=out_m, counts=cm, baseline=c0)
+                        elif ST(s).to_er7(d) not in out_m:
+                            run.fail('datatype-object-encoded-differently', 'a datatype object assigned inside a message '
+                                     'is not encoded with the message delimiters', version=v, ec=ec, input=s,
+                                     output=out_m, expected_leaf=ST(s).to_er7(d))
+                    except Exception as ex:  # noqa
+                        run.fail('escape-raises', 'assigning a textual datatype object inside a message raised',
+                                 version=v, cls='ST', ec=ec, input=s, exc=repr(ex))
                 leaf = ST(s).to_er7(d)
                 if leaf == leaf.strip() and leaf:
                     text = 'ZZZ' + f + leaf
